@@ -180,6 +180,16 @@ mut("C01-ts-capacity-not-reset", TOK, "                cur_bar_capacity_total = 
 mut("C01-pitch-range-exclusive", TOK, "if not (self.pitch_range[0] <= msg_note <= self.pitch_range[1]):", "if not (self.pitch_range[0] <= msg_note < self.pitch_range[1]):", ["C01"])
 mut("C01-rest-max-step-ge", TOK, "                if nxt_rest > self.step_sizes[-1]:\n                    rest_value = self.step_sizes[-1]", "                if nxt_rest > self.step_sizes[-1] + 1:\n                    rest_value = self.step_sizes[-1]", [])
 
+# C02
+mut("C02-vocab-pitch-exclusive", TOK, "combinations.append([pitch for pitch in range(self.pitch_range[0], self.pitch_range[1] + 1)])", "combinations.append([pitch for pitch in range(self.pitch_range[0], self.pitch_range[1])])", ["C02"])
+mut("C02-vocab-value-format", TOK, '                self.dictionary[f"{TokenisationPrefixes.VALUE.value}_{note_value:02}"] = self.dictionary_size', '                self.dictionary[f"{TokenisationPrefixes.VALUE.value}_{note_value:03}"] = self.dictionary_size', ["C02"])
+mut("C02-vocab-velocity-tokens-omitted", TOK, "            for velocity_bin in self.velocity_bins:\n                self.dictionary[f\"{TokenisationPrefixes.VELOCITY.value}_{velocity_bin:03}\"] = self.dictionary_size\n                self._dictionary_size += 1", "            for velocity_bin in self.velocity_bins[1:]:\n                self.dictionary[f\"{TokenisationPrefixes.VELOCITY.value}_{velocity_bin:03}\"] = self.dictionary_size\n                self._dictionary_size += 1", ["C02"])
+mut("C02-id-counter-not-incremented", TOK, '        self.dictionary[TokenisationPrefixes.BAR.value] = 3\n        self._dictionary_size += 1', '        self.dictionary[TokenisationPrefixes.BAR.value] = 3', ["C02"])
+mut("C02-tsg-range-exclusive", TOK, "for time_signature in range(self.time_signature_range[0], self.time_signature_range[1] + 1):", "for time_signature in range(self.time_signature_range[0], self.time_signature_range[1]):", ["C02"])
+mut("C02-rest-token-format", TOK, '                tokens.append(f"{TokenisationPrefixes.REST.value}_{rest_value:02}")', '                tokens.append(f"{TokenisationPrefixes.REST.value}_{rest_value}")', ["C02", "C01"])
+mut("C02-inverse-stale", TOK, "        self.inverse_dictionary = {v: k for k, v in self.dictionary.items()}", "        self.inverse_dictionary = {v: k for k, v in list(self.dictionary.items())[:-1]}", ["C02"])
+mut("C02-detok-rejects-pad", TOK, "                if main_part == TokenisationPrefixes.PAD.value:\n                    continue\n                elif main_part == TokenisationPrefixes.START.value:", "                if main_part == TokenisationPrefixes.START.value:", ["C02", "C19"])
+
 
 def run(cmd, env):
     p = subprocess.run(cmd, cwd=ROOT, env=env, capture_output=True, text=True)
